@@ -241,6 +241,38 @@ HintOK(cmp, E, h, v) ==
      /\ (h = LbIdx(x, v) => r.cnt <= 4)                 \* correct hint: constant number of comparisons
 
 -----------------------------------------------------------------------------
+(* DESIGN of FlatSet::merge (flatset.hpp), both algorithms, as functions on sorted sequences:                        *)
+(*   mergeUnordered: for every source element in source order, lower_bound in the destination, then push_back /     *)
+(*                   insert / keep - used whenever the comparator has state or the comparator types differ           *)
+(*   merge(FlatSet&) for a stateless comparator: one simultaneous pass over both sorted vectors                      *)
+(* and the std::set meaning they have to implement (source walked in its order against the destination as it is by   *)
+(* then).  MergeTheorem is evaluated by TLC for every pair of sets over a key domain and every pair of comparator      *)
+(* states; MergeOrderedWrong states what the pinned tree assumed (F13) and must be refuted.                            *)
+DLowerBound(cmp, A, e) == Cardinality({i \in 1..Len(A) : Lt(cmp, A[i], e)}) + 1
+DMergeUnordered(cmp, A, B) ==
+  FoldLeft(LAMBDA acc, e :
+             LET lb == DLowerBound(cmp, acc.a, e) IN
+             IF lb = Len(acc.a) + 1 THEN [acc EXCEPT !.a = Append(@, e)]
+             ELSE IF Lt(cmp, e, acc.a[lb]) THEN [acc EXCEPT !.a = InsertSeq(@, lb - 1, <<e>>)]
+             ELSE [acc EXCEPT !.b = Append(@, e)],
+           [a |-> A, b |-> <<>>], B)
+RECURSIVE DMergeOrdered(_, _, _, _, _)
+DMergeOrdered(cmp, A, B, i, j) ==      \* i, j: first1 / first2 as 1-based indices
+  IF j > Len(B) THEN [a |-> A, b |-> B]
+  ELSE IF i > Len(A) THEN [a |-> A \o SubSeq(B, j, Len(B)), b |-> SubSeq(B, 1, j - 1)]
+  ELSE IF Lt(cmp, A[i], B[j]) THEN DMergeOrdered(cmp, A, B, i + 1, j)
+  ELSE IF Lt(cmp, B[j], A[i]) THEN DMergeOrdered(cmp, InsertSeq(A, i - 1, <<B[j]>>), EraseRange(B, j - 1, j), i + 1, j)
+  ELSE DMergeOrdered(cmp, A, B, i + 1, j + 1)
+\* std::set meaning on plain sequences
+MergeStd(cmp, A, B) ==
+  LET X(E) == [ex |-> TRUE, elems |-> E, cmp |-> cmp, pri |-> FALSE, large |-> FALSE] IN
+  FoldLeft(LAMBDA acc, e : IF Has(X(acc.a), e) THEN [acc EXCEPT !.b = Append(@, e)] ELSE [acc EXCEPT !.a = InsertSorted(X(@), e).elems],
+           [a |-> A, b |-> <<>>], B)
+\* the sorted content of a set of keys for a comparator state (one representative per equivalence class)
+SortedReps(cmp, S) ==
+  SetToSortSeq({v \in S : \A w \in S : Equiv(cmp, v, w) => v <= w}, LAMBDA a, b : Lt(cmp, a, b))
+
+-----------------------------------------------------------------------------
 (* Legal labels per operation (model checking / random driving) *)
 SLookups == {"find", "contains", "count", "lowerBound", "upperBound", "equalRange"}
 SLookupsK == {"findK", "containsK", "countK", "lowerBoundK", "upperBoundK", "lowerBoundC", "upperBoundC", "countC", "containsC"}
